@@ -4,6 +4,7 @@ import (
 	"context"
 	"errors"
 	"fmt"
+	"math"
 	"strconv"
 	"strings"
 	"sync"
@@ -17,9 +18,9 @@ import (
 	"github.com/jrhy/s3db/internal"
 	"github.com/jrhy/s3db/kv"
 	"github.com/jrhy/s3db/kv/crdt"
+	v1proto "github.com/jrhy/s3db/proto/v1"
 	"github.com/jrhy/s3db/sql"
 	"github.com/jrhy/s3db/sql/parse"
-	v1proto "github.com/jrhy/s3db/proto/v1"
 	sqlTypes "github.com/jrhy/s3db/sql/types"
 	"github.com/jrhy/s3db/writetime"
 )
@@ -909,6 +910,14 @@ func Vacuum(ctx context.Context, tableName string, beforeTime time.Time) error {
 		return fmt.Errorf("table not found: %s", tableName)
 	}
 
+	if latest := time.Unix(0, math.MaxInt64); beforeTime.After(latest) {
+		// Entry and tombstone times are nanoseconds since 1970 in 64 bits
+		// (until 2262-04-11). A later cutoff wraps around when converted
+		// and compares as earlier than everything: the delete markers to
+		// purge were kept as tombstones, and the next INSERT of such a key
+		// met an entry without a row. Any such cutoff means "everything".
+		beforeTime = latest
+	}
 	if table.txStart != nil {
 		// vacuum commits; inside a transaction that would publish the
 		// transaction's writes early and make ROLLBACK ineffective
